@@ -806,7 +806,9 @@ def bad_call(mab, label, inv, base, cls, rng, d, arms, fitted):
             mab.warm_start({a: [1.0, float(i)] for i, a in enumerate(la[:-1])}, 0.5)
         elif cls == "too_few_rows":
             if not (base.get("np") and base["np"][0] == "clusters"): return "n/a"
-            meth([la[0]], [1.0], gen.gen_ctx(rng, 1, dd))
+            # fewer rows than clusters - in half of the cases with contexts of another width as well (k-means looks at the
+            # width before it counts the rows: fix D20)
+            meth([la[0]], [1.0], gen.gen_ctx(rng, 1, dd if rng.random() < 0.5 else dd + rng.choice([1, 2, -1]) if dd > 1 else dd + 1))
         elif cls == "bad_types":
             z = rng.randrange(3)
             if z == 0: meth("abc", rs, cx)
@@ -1515,7 +1517,7 @@ def gen_sim(rng, tier, metrics=None, deterministic=False):
         z = rng.random()
         if z < 0.25:
             kind = rng.choice(["greedy", "ucb", "softmax", "thompson", "popularity", "random"] if not deterministic else ["greedy", "ucb"])
-            lp = (kind, 0.0 if kind == "greedy" and (deterministic or rng.random() < 0.6) else gen.gen_hp(rng, kind)) if kind in ("greedy", "ucb", "softmax") else ((kind, None) if kind == "thompson" else (kind,))
+            lp = (kind, 0.0 if kind == "greedy" and (deterministic or rng.random() < 0.6) else gen.gen_hp(rng, kind)) if kind in ("greedy", "ucb", "softmax") else ((kind, gen.gen_binz(rng, arms) if rng.random() < 0.5 else None) if kind == "thompson" else (kind,))
             npol = None
         else:
             npk = rng.choice(["radius", "knearest", "radius", "knearest", "lsh", "clusters", "tree", "none"])
@@ -1529,7 +1531,8 @@ def gen_sim(rng, tier, metrics=None, deterministic=False):
                 lp = gen.gen_lin_lp(rng, kind, scale_ok=False)
                 if kind == "lingreedy": lp = (kind, 0.0) + tuple(lp[2:])
             elif kind == "thompson":
-                lp = (kind, None)
+                # half of the Thompson bandits carry a binarizer (TreeBandit re-applies it at the leaves: finding D6, not generated here)
+                lp = (kind, gen.gen_binz(rng, arms) if (rng.random() < 0.5 and npk != "tree") else None)
             elif kind == "greedy":
                 lp = (kind, 0.0 if (deterministic or rng.random() < 0.7) else 0.2)
             else:
@@ -1558,7 +1561,7 @@ def gen_sim(rng, tier, metrics=None, deterministic=False):
     test_size = rng.choice([0.2, 0.3, 0.5, 0.25])
     n_test = math.ceil(n * test_size)
     bs = rng.choice([0, 0, 1, rng.randint(1, max(1, n_test)), n_test, max(1, n_test // 2)])
-    thompson = any(b["lp"][0] == "thompson" for b in bandits)
+    thompson = any(b["lp"][0] == "thompson" and b["lp"][1] is None for b in bandits)
     if thompson:
         rs = [float(int(abs(r)) % 2) for r in rs]
     if any(b["lp"][0] == "popularity" for b in bandits):
